@@ -312,6 +312,38 @@ def run(fx, R, tier):
         dim = int(gq.rstrip('>').split(',')[-1])
         check_wrap(fx, R, gq, dim)
         check_translate(fx, R, gq, dim)
+        check_dispatch(fx, R, gq)
+
+
+def check_dispatch(fx, R, gq):
+    """O1: the wrappable grid IS-A Grid (public base): every member function of the base that the wrappable grid redefines with the same signature - the cell accessors and the linear-index map, which are what
+    applies the index offset - must be virtual in the base, otherwise a call through a Grid reference or pointer reaches the base version, which ignores the offset."""
+    rec = fx.records[gq]
+    cname = gname(gq)
+    for bq in rec.get('bases') or []:
+        brec = fx.records.get(bq)
+        if not brec:
+            continue
+        bm = {(m_['name'], m_.get('sig')): m_ for m_ in brec['methods'] if not m_.get('ctor') and not m_['name'].startswith('~')}
+        n = 0
+        for m_ in rec['methods']:
+            if m_.get('ctor') or m_['name'].startswith('~') or m_.get('implicit'):
+                continue
+            b_ = bm.get((m_['name'], m_.get('sig')))
+            if b_ is None:
+                continue
+            n += 1
+            inst = '%s::%s:dispatch' % (cname, m_['name'] + (' const' if m_.get('const') else ''))
+            if b_.get('virtual'):
+                R.holds('O1', inst, 'overrides the virtual member of %s' % short_fn(bq), None, 'E-SIB')
+            else:
+                R.violated('O1', '%s:hidden-not-overridden:%s' % (gname(gq).split('<')[0], m_['name'] + (' const' if m_.get('const') else '')),
+                           '%s redefines %s `%s`, which is NOT virtual in its public base %s: the derived version - the one that applies the index offset - only hides it, so every access through a '
+                           '%s reference or pointer (a function taking the base class, a container of grids) reads and writes the raw buffer as if no translation had happened: surviving cells are found at the '
+                           'wrong place as soon as an offset is non-zero [%s]' % (short_fn(gq), m_['name'], m_.get('sig'), short_fn(bq), short_fn(bq).split('<')[0], cname),
+                           fx.rel(rec['loc']) if rec.get('loc') else None, 'E-SIB')
+        if not n:
+            R.undecided('O1', '%s:dispatch' % cname, 'no member of the base %s is redefined: the accessors that apply the offset were not found' % short_fn(bq))
 
 
 def gname(gq):
@@ -835,7 +867,8 @@ def check_block(fx, R, C, cname, f, k, dim, blk):
         R.form(kinds == want, 'O5', li + ':order', 'loop body is %s, not the enumerated %s' % (kinds, want), ' then '.join(want), fx.rel(ev['loc']), 'E-STATE',
                facts=[(sorted(kinds) == sorted(want) and kinds != want, 'loop body is %s, the statement needs %s (d>0: blank then step; d<0: step back then blank): the cell blanked is the one next to the '
                        'entering slab' % (kinds, want)),
-                      (kinds == ['advance'] and not any('buffer_' in pp(x) or x.get('k') in ('MCall', 'Call') for x in walk(ev.get('node') or {})), 'the loop only advances the index: nothing is blanked')])
+                      (kinds == ['advance'] and not any('buffer_' in pp(x) or x.get('k') in ('MCall', 'Call', 'Lambda') or (x.get('k') == 'Op' and x.get('op') == '()') for x in walk(ev.get('node') or {})),
+                       'the loop only advances the index: nothing is blanked')])
         for b in ev['body']:
             if b[0] == 'advance':
                 expr = b[1]
